@@ -7,10 +7,32 @@
   block prints what from which list, how `param_list` is obtained, and the two `cat` commands.
 
 Fail closed: any statement / expression outside the recognised shapes raises ExtractError.
+
+Before the strict recognisers run, the anchored functions are brought to a canonical shape by the semantics-preserving
+normalisations of `extractors/_norm_c08.py` (side conditions there), so that a behaviour-preserving refactor regenerates
+the SAME table.  In this module, on top of those:
+
+* names of locals are never significant (operator list, integer array, scalars, loop variables, file handle, `max_param`,
+  `param_list`); scalars are tracked SSA-style through straight-line code (hoisted temporaries, re-assignment, `x += e`);
+* helper inlining (N1), loop+append -> comprehension with guard inversion (N2), De Morgan / double negation / `!=` vs
+  `not ==` / `if A if B` in label conditions (N3; emitted in negation normal form, conjuncts in evaluation order);
+* `int(a != b)`, `1 if a != b else 0`, a Boolean `b = (a != b)` used arithmetically, `if b: x += k`, `x = 0; if b: x = k`,
+  `if b: x = 1 else: x = 0` all denote the indicator `.neInd` (times `k`);
+* `arr.sum()` for `np.sum(arr)` ONLY when `arr` is syntactically an ndarray expression of this translator (`np.log` /
+  `np.abs` of the integer array built by `np.array`), array temporaries (`m = np.abs(n)`) inlined;
+* operands of `+` / `*` / `!=` on scalars are put in a canonical order (Python int and IEEE-754 double `+`, `*` commute
+  exactly; the operands are pure and total expressions here, so evaluation order is not observable);
+* writer loop: loops over literal tables unrolled (N4), `range(len(L))` / `enumerate(L)` index loops read as direct
+  iteration (N8), a hoisted temporary for the printed value (N5), file names / `cat` commands / `'a%i'%j` compared as
+  string templates (N6) under the DECLARED types `dirname: str`, `compl: int`, `j: int` (from `range`); merged or split
+  `if rank == 0:` blocks; `for i, s in enumerate(shapes)`.
+* `call_sites`: the argument expressions of every `aifeyn_complexity` call in `single_function` / `tree_to_aifeyn`,
+  resolved by forward symbolic evaluation (N7) and classified as one of two parameter rules.
 """
-import ast, re
+import ast, re, copy
 import extract
 from extract import ExtractError, lstr, llist
+from extractors import _norm_c08 as N
 
 GEN = "esr/generation/generator.py"
 extract.MODELLED += [
@@ -44,14 +66,27 @@ def _is_call(node, name):
     return False
 
 
+_NRANK = {".lit": 0, ".len": 1, ".lenSet": 2, ".neInd": 3, ".mul": 4, ".add": 5}
+_RRANK = {".nat": 0, ".log": 1, ".mul": 2, ".add": 3, ".sum": 4}
+
+
+def _canon(rank, a, b):
+    """operands of a commutative operator in canonical order (constructor rank, then text; stable)"""
+    key = lambda t: (rank.get(t[1:].split(" ", 1)[0].rstrip(")"), 9), t)
+    return (a, b) if key(a) <= key(b) else (b, a)
+
+
 class _Aifeyn(object):
-    def __init__(self, fn):
+    def __init__(self, fn, module=None):
+        if module is not None:
+            fn = N.loops_to_comps(N.inline_helpers(fn, module))
         args = [a.arg for a in fn.args.args]
         if len(args) != 2 or fn.args.vararg or fn.args.kwarg or fn.args.kwonlyargs or fn.args.defaults:
             raise ExtractError("aifeyn_complexity: signature %r not (tree, param_list)" % (args,))
         self.tree, self.params = args
         self.ops_var = None
         self.int_var = None
+        self.int_list = None         # (name, filter) of a pending `[int(tt) for tt in tree if ..]`
         self.op_filter = None
         self.int_filter = None
         self.fixups = []
@@ -83,13 +118,14 @@ class _Aifeyn(object):
                 raise ExtractError("line %d: operator comprehension element is not the loop variable" % lc.lineno)
         if not g.ifs:
             raise ExtractError("line %d: comprehension without condition" % lc.lineno)
-        preds = [self.pred(c, tt) for c in g.ifs]
+        preds = [self.pred(c, tt) for c in N.conjuncts(g.ifs)]
         out = preds[0]
         for p in preds[1:]:
             out = "(.and %s %s)" % (out, p)
         return out
 
     def pred(self, c, tt):
+        """`c` is in negation normal form (N.nnf): `not` only directly above an atom"""
         if isinstance(c, ast.BoolOp):
             k = ".and" if isinstance(c.op, ast.And) else ".or"
             vals = [self.pred(v, tt) for v in c.values]
@@ -118,28 +154,46 @@ class _Aifeyn(object):
 
     # -- statements --------------------------------------------------------------------
     def stmt(self, st):
+        if isinstance(st, ast.AugAssign) and isinstance(st.target, ast.Name) and isinstance(st.op, (ast.Add, ast.Mult)):
+            load = ast.copy_location(ast.Name(id=st.target.id, ctx=ast.Load()), st)
+            st = ast.copy_location(ast.Assign(targets=[st.target], value=ast.copy_location(ast.BinOp(left=load, op=st.op, right=st.value), st)), st)
         if isinstance(st, ast.Assign) and len(st.targets) == 1 and isinstance(st.targets[0], ast.Name):
             name, v = st.targets[0].id, st.value
             if name in (self.tree, self.params):
                 raise ExtractError("line %d: argument %s reassigned" % (st.lineno, name))
-            if name in self.scalars or name in (self.ops_var, self.int_var):
+            if name in (self.ops_var, self.int_var) or (self.int_list and name == self.int_list[0] and not _is_call(v, "np.array")):
                 raise ExtractError("line %d: %s assigned twice" % (st.lineno, name))
+            if isinstance(v, ast.ListComp) and _is_call(v.elt, "int"):
+                # Python list of the integer labels, to be wrapped by np.array (possibly re-binding the same name)
+                if self.int_var is not None or self.int_list is not None or name in self.scalars:
+                    raise ExtractError("line %d: second integer list" % st.lineno)
+                self.int_list = (name, self.comp(v, True))
+                return
+            if self.int_list is not None and _is_call(v, "np.array") and len(v.args) == 1 and isinstance(v.args[0], ast.Name) \
+                    and v.args[0].id == self.int_list[0]:
+                if name in self.scalars:
+                    raise ExtractError("line %d: %s assigned twice" % (st.lineno, name))
+                self.int_var, self.int_filter = name, self.int_list[1]
+                self.int_list = (None, None)         # consumed: the list may not be used again
+                return
             if isinstance(v, ast.ListComp):
                 if self.ops_var is not None:
                     raise ExtractError("line %d: second label list" % st.lineno)
+                if name in self.scalars:
+                    raise ExtractError("line %d: %s assigned twice" % (st.lineno, name))
                 self.op_filter = self.comp(v, False)
                 self.ops_var = name
                 return
             if _is_call(v, "np.array") and len(v.args) == 1 and isinstance(v.args[0], ast.ListComp):
                 if self.int_var is not None:
                     raise ExtractError("line %d: second integer array" % st.lineno)
+                if name in self.scalars:
+                    raise ExtractError("line %d: %s assigned twice" % (st.lineno, name))
                 self.int_filter = self.comp(v.args[0], True)
                 self.int_var = name
                 return
-            try:
-                self.scalars[name] = ("n", self.nexp(v))
-            except ExtractError:
-                self.scalars[name] = ("r", self.rexp(v))
+            # straight-line code: a name stands for the (already substituted) expression last assigned to it
+            self.scalars[name] = self.value(v)
             return
         # n[n == a] = b
         if isinstance(st, ast.Assign) and len(st.targets) == 1 and isinstance(st.targets[0], ast.Subscript):
@@ -156,7 +210,62 @@ class _Aifeyn(object):
                         raise ExtractError("line %d: fix-up after the integer array was already used" % st.lineno)
                     self.fixups.append((a, b))
                     return
+        # if <a != b>: x += k      |  if <a != b>: x = k  (x == 0 before)   |  if <a != b>: x = 1  else: x = 0
+        if isinstance(st, ast.If) and len(st.body) == 1 and len(st.orelse) <= 1:
+            ind = "(.neInd %s %s)" % self.bexp(st.test)
+            name, k = self.cond_update(st.body[0])
+            if st.orelse:
+                name2, k2 = self.cond_update(st.orelse[0])
+                if name2 != name or k[0] != "set" or k2 != ("set", "(.lit 0)"):
+                    raise ExtractError("line %d: if/else is not `x = k` / `x = 0`" % st.lineno)
+                self.scalars[name] = ("n", self.nmul(k[1], ind))
+                return
+            cur = self.scalars.get(name)
+            if cur is None or cur[0] != "n":
+                raise ExtractError("line %d: conditional update of %s, which is not an integer scalar" % (st.lineno, name))
+            if k[0] == "inc":
+                self.scalars[name] = ("n", self.nadd(cur[1], self.nmul(k[1], ind)))
+                return
+            if cur[1] == "(.lit 0)":
+                self.scalars[name] = ("n", self.nmul(k[1], ind))
+                return
         raise ExtractError("line %d: statement not recognised: %s" % (st.lineno, ast.unparse(st)[:80]))
+
+    def cond_update(self, st):
+        """(name, ("inc", k) | ("set", k)) of `x += k`, `x = x + k`, `x = k + x`, `x = k`  (k an integer expression not using x)"""
+        if isinstance(st, ast.AugAssign) and isinstance(st.target, ast.Name) and isinstance(st.op, ast.Add):
+            if N.names_loaded(st.value, st.target.id):
+                raise ExtractError("line %d: increment uses its own target" % st.lineno)
+            return st.target.id, ("inc", self.nexp(st.value))
+        if isinstance(st, ast.Assign) and len(st.targets) == 1 and isinstance(st.targets[0], ast.Name):
+            x, v = st.targets[0].id, st.value
+            if x in (self.tree, self.params, self.ops_var, self.int_var):
+                raise ExtractError("line %d: %s reassigned" % (st.lineno, x))
+            if isinstance(v, ast.BinOp) and isinstance(v.op, ast.Add):
+                for me, other in ((v.left, v.right), (v.right, v.left)):
+                    if isinstance(me, ast.Name) and me.id == x and not N.names_loaded(other, x):
+                        return x, ("inc", self.nexp(other))
+            if not N.names_loaded(v, x):
+                return x, ("set", self.nexp(v))
+        raise ExtractError("line %d: conditional statement not recognised: %s" % (st.lineno, ast.unparse(st)[:80]))
+
+    def value(self, v):
+        for kind, f in (("n", self.nexp), ("b", self.bexp), ("r", self.rexp), ("ia", self.iarr), ("ra", self.rarr)):
+            try:
+                return (kind, f(v))
+            except ExtractError as e:
+                err = e
+        raise ExtractError("line %d: right-hand side not recognised: %s" % (v.lineno, ast.unparse(v)[:80]))
+
+    def nadd(self, a, b):
+        return "(.add %s %s)" % _canon(_NRANK, a, b)
+
+    def nmul(self, a, b):
+        if a == "(.lit 1)":
+            return b
+        if b == "(.lit 1)":
+            return a
+        return "(.mul %s %s)" % _canon(_NRANK, a, b)
 
     used_ints = False
 
@@ -168,32 +277,56 @@ class _Aifeyn(object):
             return ".ops"
         raise ExtractError("line %d: %s is not a label list" % (node.lineno, ast.unparse(node)))
 
+    def bexp(self, e, neg=False):
+        """(a, b) such that the Boolean expression `e` (negated when `neg`) is `a != b` on integer expressions"""
+        if isinstance(e, ast.UnaryOp) and isinstance(e.op, ast.Not):
+            return self.bexp(e.operand, not neg)
+        if isinstance(e, ast.Compare) and len(e.ops) == 1 and isinstance(e.ops[0], ast.Eq if neg else ast.NotEq):
+            return _canon(_NRANK, self.nexp(e.left), self.nexp(e.comparators[0]))
+        if isinstance(e, ast.Name) and not neg and e.id in self.scalars and self.scalars[e.id][0] == "b":
+            return self.scalars[e.id][1]
+        if _is_call(e, "bool") and len(e.args) == 1:
+            return self.bexp(e.args[0], neg)
+        raise ExtractError("line %d: not a Boolean of the form a != b: %s" % (e.lineno, ast.unparse(e)))
+
     def nexp(self, e):
         if isinstance(e, ast.Constant) and type(e.value) is int and e.value >= 0:
             return "(.lit %d)" % e.value
         if isinstance(e, ast.Name) and e.id in self.scalars and self.scalars[e.id][0] == "n":
             return self.scalars[e.id][1]
+        if isinstance(e, ast.Name) and e.id in self.scalars and self.scalars[e.id][0] == "b":
+            return "(.neInd %s %s)" % self.scalars[e.id][1]          # True == 1, False == 0 in arithmetic
         if _is_call(e, "len") and len(e.args) == 1:
             a = e.args[0]
             if _is_call(a, "set") and len(a.args) == 1:
                 return "(.lenSet %s)" % self.lvar(a.args[0])
             return "(.len %s)" % self.lvar(a)
-        if _is_call(e, "int") and len(e.args) == 1 and isinstance(e.args[0], ast.Compare) and len(e.args[0].ops) == 1 \
-                and isinstance(e.args[0].ops[0], ast.NotEq):
-            return "(.neInd %s %s)" % (self.nexp(e.args[0].left), self.nexp(e.args[0].comparators[0]))
-        if isinstance(e, ast.BinOp) and isinstance(e.op, (ast.Add, ast.Mult)):
-            return "(%s %s %s)" % (".add" if isinstance(e.op, ast.Add) else ".mul", self.nexp(e.left), self.nexp(e.right))
+        if _is_call(e, "int") and len(e.args) == 1:
+            return "(.neInd %s %s)" % self.bexp(e.args[0])
+        if isinstance(e, ast.IfExp) and isinstance(e.body, ast.Constant) and type(e.body.value) is int and e.body.value == 1 \
+                and isinstance(e.orelse, ast.Constant) and type(e.orelse.value) is int and e.orelse.value == 0:
+            return "(.neInd %s %s)" % self.bexp(e.test)
+        if isinstance(e, ast.Compare) or (isinstance(e, ast.UnaryOp) and isinstance(e.op, ast.Not)):
+            raise ExtractError("line %d: a bare Boolean is not taken as an integer: %s" % (e.lineno, ast.unparse(e)))
+        if isinstance(e, ast.BinOp) and isinstance(e.op, ast.Add):
+            return self.nadd(self.nexp(e.left), self.nexp(e.right))
+        if isinstance(e, ast.BinOp) and isinstance(e.op, ast.Mult):
+            return "(.mul %s %s)" % _canon(_NRANK, self.nexp(e.left), self.nexp(e.right))
         raise ExtractError("line %d: not an integer expression: %s" % (e.lineno, ast.unparse(e)))
 
     def iarr(self, e):
         if isinstance(e, ast.Name) and e.id == self.int_var:
             self.used_ints = True
             return ".ints"
+        if isinstance(e, ast.Name) and e.id in self.scalars and self.scalars[e.id][0] == "ia":
+            return self.scalars[e.id][1]
         if (_is_call(e, "np.abs") or _is_call(e, "np.absolute") or _is_call(e, "abs")) and len(e.args) == 1:
             return "(.abs %s)" % self.iarr(e.args[0])
         raise ExtractError("line %d: not an integer array expression: %s" % (e.lineno, ast.unparse(e)))
 
     def rarr(self, e):
+        if isinstance(e, ast.Name) and e.id in self.scalars and self.scalars[e.id][0] == "ra":
+            return self.scalars[e.id][1]
         if _is_call(e, "np.log") and len(e.args) == 1:
             return "(.log %s)" % self.iarr(e.args[0])
         raise ExtractError("line %d: not a real array expression: %s" % (e.lineno, ast.unparse(e)))
@@ -206,9 +339,12 @@ class _Aifeyn(object):
         if isinstance(e, ast.Name) and e.id in self.scalars and self.scalars[e.id][0] == "r":
             return self.scalars[e.id][1]
         if isinstance(e, ast.BinOp) and isinstance(e.op, (ast.Add, ast.Mult)):
-            return "(%s %s %s)" % (".add" if isinstance(e.op, ast.Add) else ".mul", self.rexp(e.left), self.rexp(e.right))
+            return "(%s %s %s)" % ((".add" if isinstance(e.op, ast.Add) else ".mul",) + _canon(_RRANK, self.rexp(e.left), self.rexp(e.right)))
         if _is_call(e, "np.sum") and len(e.args) == 1:
             return "(.sum %s)" % self.rarr(e.args[0])
+        # arr.sum() only on what is syntactically an ndarray of this translator (rarr fails on anything else)
+        if isinstance(e, ast.Call) and not e.args and not e.keywords and isinstance(e.func, ast.Attribute) and e.func.attr == "sum":
+            return "(.sum %s)" % self.rarr(e.func.value)
         if _is_call(e, "np.log") and len(e.args) == 1:
             return "(.log %s)" % self.rexp(e.args[0])
         raise ExtractError("line %d: real expression not recognised: %s" % (e.lineno, ast.unparse(e)))
@@ -218,25 +354,71 @@ class _Aifeyn(object):
 # writer loop of generate_equations
 # ---------------------------------------------------------------------------------------
 
-_FILE = re.compile(r"^/(\w+)_%i\.txt$")
+_FILE = re.compile(r"^\{dirname\}/(\w+)_\{compl\}\.txt$")
+_CAT = re.compile(r"^cat ((?:\{dirname\}/\w+_\{compl\}\.txt )+)> \{dirname\}/(\w+)_\{compl\}\.txt$")
+# declared types of the two arguments of generate_equations that occur in file names (docstring: `dirname (str)`, `compl (int)`)
+_TYPES = {"dirname": "str", "compl": "int"}
+# calls a rank-0 bookkeeping block may make (nothing that can write a file or change the tree lists)
+_BOOKKEEPING_CALLS = ("print", "len", "str", "int", "float", "sys.stdout.flush", "time.time", "max", "min", "range")
 
 
-def _open_name(call, mode):
-    """open(dirname + '/NAME_%i.txt'%compl, mode) -> NAME"""
+def _open_name(call, mode, S):
+    """open(<dirname>/NAME_<compl>.txt, mode) -> NAME   (path compared as a string template)"""
     if not (_is_call(call, "open") and len(call.args) == 2 and isinstance(call.args[1], ast.Constant) and call.args[1].value == mode):
         return None
-    p = call.args[0]
-    if isinstance(p, ast.BinOp) and isinstance(p.op, ast.Add) and isinstance(p.left, ast.Name) and p.left.id == "dirname" \
-            and isinstance(p.right, ast.BinOp) and isinstance(p.right.op, ast.Mod) and isinstance(p.right.left, ast.Constant) \
-            and isinstance(p.right.left.value, str) and ast.unparse(p.right.right) == "compl":
-        m = _FILE.match(p.right.left.value)
-        if m:
-            return m.group(1)
-    return None
+    try:
+        m = _FILE.match(S.str(call.args[0]).render())
+    except ExtractError:
+        return None
+    return m.group(1) if m else None
 
 
-def _writer(fn):
+def _is_rank0(st):
+    return isinstance(st, ast.If) and ast.unparse(st.test) in ("rank == 0", "0 == rank", "not rank", "rank < 1") and not st.orelse
+
+
+def _bookkeeping(st, forbidden):
+    """a rank-0 statement that only counts / prints progress: may not mention the tree lists, param_list or files"""
+    src = ast.unparse(st)
+    for n in ast.walk(st):
+        if isinstance(n, ast.Name) and n.id in forbidden:
+            par_ok = False
+            for c in ast.walk(st):                      # only as len(<list>)
+                if _is_call(c, "len") and len(c.args) == 1 and c.args[0] is n:
+                    par_ok = True
+            if not par_ok:
+                raise ExtractError("generate_equations: rank-0 block touches the tree lists: %s" % src[:80])
+        if isinstance(n, ast.Call) and ast.unparse(n.func) not in _BOOKKEEPING_CALLS:
+            raise ExtractError("generate_equations: call in a rank-0 block not recognised (line %d): %s" % (n.lineno, ast.unparse(n)[:80]))
+        if isinstance(n, (ast.With, ast.AsyncWith, ast.Import, ast.ImportFrom, ast.FunctionDef, ast.ClassDef, ast.Delete, ast.Global)):
+            raise ExtractError("generate_equations: statement in a rank-0 block not recognised (line %d): %s" % (n.lineno, src[:80]))
+
+
+def _param_names(e, S):
+    """`e` is ['a%i' % j for j in range(M)] (any spelling of the string): returns M"""
+    c = N.alpha(e, "_j")
+    if c is None:
+        return None
+    g = c.generators[0]
+    if g.ifs or g.is_async or not (_is_call(g.iter, "range") and len(g.iter.args) == 1):
+        return None
+    try:
+        t = S.child({"_j": "int"}).str(c.elt)
+    except ExtractError:
+        return None
+    if t.parts != [("lit", "a"), ("hole", "_j")]:
+        return None
+    return e.generators[0].iter.args[0]
+
+
+def _writer(fn, module=None):
+    if module is not None:
+        fn = N.inline_helpers(fn, module)
     body = _body(fn)
+    S = N.Strings(_TYPES)
+    for nm in _TYPES:
+        if nm not in [a.arg for a in fn.args.args] or any(nm in N.bound_names(st) for st in body):
+            raise ExtractError("generate_equations: %s is not an argument that is never reassigned" % nm)
     loop = None
     for k, st in enumerate(body):
         if isinstance(st, ast.For) and "shape_to_functions" in ast.unparse(st):
@@ -245,58 +427,70 @@ def _writer(fn):
             loop, loop_at = st, k
     if loop is None:
         raise ExtractError("generate_equations: loop over shapes not found")
-    if ast.unparse(loop.iter) != "range(len(shapes))" or not isinstance(loop.target, ast.Name):
-        raise ExtractError("generate_equations: loop header %s" % ast.unparse(loop.iter))
-    ivar = loop.target.id
+    hdr = ast.unparse(loop.iter)
+    if hdr == "range(len(shapes))" and isinstance(loop.target, ast.Name):
+        shape_exprs = ["shapes[%s]" % loop.target.id]
+    elif hdr == "enumerate(shapes)" and isinstance(loop.target, ast.Tuple) and len(loop.target.elts) == 2 \
+            and all(isinstance(x, ast.Name) for x in loop.target.elts):
+        shape_exprs = ["shapes[%s]" % loop.target.elts[0].id, loop.target.elts[1].id]
+    else:
+        raise ExtractError("generate_equations: loop header %s" % hdr)
+    if loop.orelse or "shapes" in N.bound_names(loop) or any(isinstance(n, (ast.Break, ast.Continue)) for n in ast.walk(loop)):
+        raise ExtractError("generate_equations: loop over shapes has break/continue/else or rebinds `shapes`")
 
     # files cleared before the loop
-    cleared = None
+    cleared = []
     for st in body[:loop_at]:
-        if isinstance(st, ast.If) and ast.unparse(st.test) == "rank == 0" and len(st.body) == 1 and isinstance(st.body[0], ast.For):
-            f = st.body[0]
-            if isinstance(f.iter, ast.List) and len(f.body) == 1 and isinstance(f.body[0], ast.With):
-                w = f.body[0]
-                src = ast.unparse(w.items[0].context_expr)
-                if src == "open(dirname + '/%%s_%%i.txt' %% (%s, compl), 'w')" % f.target.id and ast.unparse(w.body) == "pass":
-                    cleared = [ast.literal_eval(x) for x in f.iter.elts]
-    if cleared is None:
+        if _is_rank0(st) and any(isinstance(n, ast.With) for n in ast.walk(st)):
+            for x in N.unroll_literal_loops(st.body, fn):
+                if isinstance(x, ast.With) and len(x.items) == 1 and ast.unparse(x.body) == "pass":
+                    nm = _open_name(x.items[0].context_expr, "w", S)
+                    if nm is not None:
+                        cleared.append(nm)
+                        continue
+                raise ExtractError("generate_equations: block clearing the files not recognised (line %d): %s" % (x.lineno, ast.unparse(x)[:80]))
+    if not cleared:
         raise ExtractError("generate_equations: block clearing the four files not recognised")
 
     all_tree = extra_tree = funs = None
-    param_ok = max_ok = False
+    mp_var = pl_var = None
     writes = []
     for st in loop.body:
         src = ast.unparse(st)
         if isinstance(st, ast.Assign) and "shape_to_functions" in src:
             t = st.targets[0]
-            if not (isinstance(t, ast.Tuple) and len(t.elts) == 5 and isinstance(t.elts[1], ast.Name) and isinstance(t.elts[3], ast.Name)):
+            if not (len(st.targets) == 1 and isinstance(t, ast.Tuple) and len(t.elts) == 5 and isinstance(t.elts[1], ast.Name)
+                    and isinstance(t.elts[3], ast.Name)) or funs is not None:
                 raise ExtractError("generate_equations: unpacking of shape_to_functions changed")
-            if ast.unparse(st.value) != "shape_to_functions(shapes[%s], basis_functions)" % ivar:
+            if ast.unparse(st.value) not in ["shape_to_functions(%s, basis_functions)" % x for x in shape_exprs]:
                 raise ExtractError("generate_equations: call %s" % ast.unparse(st.value))
             funs, all_tree, extra_tree = ast.unparse(t.elts[0]), t.elts[1].id, t.elts[3].id
             continue
-        if isinstance(st, ast.Assign) and len(st.targets) == 1 and ast.unparse(st.targets[0]) == "max_param":
-            if funs is None or ast.unparse(st.value) != "simplifier.get_max_param(%s, verbose=False)" % funs:
-                raise ExtractError("generate_equations: max_param = %s" % ast.unparse(st.value))
-            max_ok = True
-            continue
-        if isinstance(st, ast.Assign) and len(st.targets) == 1 and ast.unparse(st.targets[0]) == "param_list":
-            if ast.unparse(st.value) != "['a%i' % j for j in range(max_param)]" or not max_ok:
-                raise ExtractError("generate_equations: param_list = %s" % ast.unparse(st.value))
-            param_ok = True
-            continue
-        if isinstance(st, ast.If) and ast.unparse(st.test) == "rank == 0" and not st.orelse:
-            if any(isinstance(x, ast.With) for x in st.body):
-                if not param_ok:
-                    raise ExtractError("generate_equations: files written before param_list is set")
-                for w in st.body:
-                    writes.append(_with_block(w, all_tree, extra_tree))
+        if isinstance(st, ast.Assign) and len(st.targets) == 1 and isinstance(st.targets[0], ast.Name) and pl_var is None \
+                and funs is not None:
+            name, v = st.targets[0].id, st.value
+            if mp_var is None and ast.unparse(v) == "simplifier.get_max_param(%s, verbose=False)" % funs:
+                mp_var = name
                 continue
-            # bookkeeping / progress printing only: may not touch the tree lists or files
-            if re.search(r"\b(%s|%s|param_list|open)\b" % (all_tree or "all_tree", extra_tree or "extra_tree"), src) and "len(" not in src:
-                raise ExtractError("generate_equations: rank-0 block touches the tree lists: %s" % src[:80])
-            if "open(" in src:
-                raise ExtractError("generate_equations: rank-0 block opens a file: %s" % src[:80])
+            M = _param_names(v, S)
+            if M is not None:
+                if (mp_var is not None and isinstance(M, ast.Name) and M.id == mp_var) or \
+                        ast.unparse(M) == "simplifier.get_max_param(%s, verbose=False)" % funs:
+                    pl_var = name
+                    continue
+                raise ExtractError("generate_equations: parameter names up to %s" % ast.unparse(M))
+            raise ExtractError("generate_equations: %s = %s" % (name, ast.unparse(v)[:80]))
+        if _is_rank0(st):
+            forbidden = set(x for x in (all_tree, extra_tree, pl_var, mp_var, "open", "os", "shapes") if x)
+            for x in N.unroll_literal_loops(st.body, fn):
+                if isinstance(x, ast.With):
+                    if pl_var is None:
+                        raise ExtractError("generate_equations: files written before param_list is set")
+                    writes.append(_with_block(x, all_tree, extra_tree, pl_var, S))
+                else:
+                    if all_tree is None and re.search(r"\b(all_tree|extra_tree|param_list)\b", ast.unparse(x)) and "len(" not in ast.unparse(x):
+                        raise ExtractError("generate_equations: rank-0 block touches the tree lists: %s" % ast.unparse(x)[:80])
+                    _bookkeeping(x, forbidden)
             continue
         raise ExtractError("generate_equations: statement in shape loop not recognised (line %d): %s" % (st.lineno, src[:80]))
     if not writes:
@@ -306,27 +500,25 @@ def _writer(fn):
     cats = []
     tail = ast.unparse(ast.Module(body=body[loop_at + 1:], type_ignores=[]))
     for st in body[loop_at + 1:]:
-        if isinstance(st, ast.If) and ast.unparse(st.test) == "rank == 0":
-            pend = None
-            for x in st.body:
-                if isinstance(x, ast.Assign) and isinstance(x.value, ast.BinOp) and isinstance(x.value.op, ast.Mod) \
-                        and isinstance(x.value.left, ast.Constant) and isinstance(x.value.left.value, str) and x.value.left.value.startswith("cat "):
-                    m = re.match(r"^cat ((?:%s/\w+_%i\.txt )+)> %s/(\w+)_%i\.txt$", x.value.left.value)
+        if _is_rank0(st) and "os.system" in ast.unparse(st):
+            SS = S.child()
+            for x in N.unroll_literal_loops(st.body, fn):
+                if isinstance(x, ast.Assign) and len(x.targets) == 1 and isinstance(x.targets[0], ast.Name):
+                    if not SS.bind(x.targets[0].id, x.value):
+                        raise ExtractError("generate_equations: not a string or list of strings (line %d): %s" % (x.lineno, ast.unparse(x)[:80]))
+                elif isinstance(x, ast.Expr) and ast.unparse(x) == "sys.stdout.flush()":
+                    pass
+                elif isinstance(x, ast.Expr) and isinstance(x.value, ast.Call) and ast.unparse(x.value.func) == "os.system" \
+                        and len(x.value.args) == 1 and not x.value.keywords:
+                    cmd = SS.str(x.value.args[0]).render()
+                    m = _CAT.match(cmd)
                     if not m:
-                        raise ExtractError("generate_equations: cat command not recognised: %s" % x.value.left.value)
-                    parts = re.findall(r"%s/(\w+)_%i\.txt", m.group(1))
-                    args = [ast.unparse(a) for a in x.value.right.elts] if isinstance(x.value.right, ast.Tuple) else None
-                    want = []
-                    for _ in range(len(parts) + 1):
-                        want += ["dirname", "compl"]
-                    if args != want:
-                        raise ExtractError("generate_equations: cat arguments %r" % (args,))
-                    pend = (x.targets[0].id, m.group(2), parts)
-                elif isinstance(x, ast.Expr) and ast.unparse(x).startswith("os.system("):
-                    if pend is None or ast.unparse(x) != "os.system(%s)" % pend[0]:
-                        raise ExtractError("generate_equations: os.system without its cat string")
-                    cats.append((pend[1], pend[2]))
-                    pend = None
+                        raise ExtractError("generate_equations: cat command not recognised: %s" % cmd)
+                    cats.append((m.group(2), re.findall(r"\{dirname\}/(\w+)_\{compl\}\.txt ", m.group(1))))
+                else:
+                    raise ExtractError("generate_equations: statement next to os.system not recognised (line %d): %s" % (x.lineno, ast.unparse(x)[:80]))
+        elif "os.system" in ast.unparse(st) or "subprocess" in ast.unparse(st):
+            raise ExtractError("generate_equations: shell command outside a rank-0 block (line %d)" % st.lineno)
     if "open(" in tail:
         raise ExtractError("generate_equations: file opened after the shape loop")
     if not cats:
@@ -335,12 +527,12 @@ def _writer(fn):
     return cleared, writes, cats, span
 
 
-def _with_block(w, all_tree, extra_tree):
+def _with_block(w, all_tree, extra_tree, pl_var, S):
     if not (isinstance(w, ast.With) and len(w.items) == 1 and isinstance(w.items[0].optional_vars, ast.Name)):
         raise ExtractError("generate_equations: rank-0 writer block contains a non-`with` statement (line %d): %s"
                            % (w.lineno, ast.unparse(w)[:60]))
     fvar = w.items[0].optional_vars.id
-    name = _open_name(w.items[0].context_expr, "a")
+    name = _open_name(w.items[0].context_expr, "a", S)
     if name is None:
         raise ExtractError("generate_equations: open() not in append mode on dirname/<name>_%%i.txt (line %d)" % w.lineno)
     loops = [x for x in w.body if isinstance(x, ast.For)]
@@ -349,18 +541,18 @@ def _with_block(w, all_tree, extra_tree):
     for x in w.body[:-1]:
         if not (isinstance(x, ast.Assign) and all(isinstance(t, ast.Name) and t.id in ("w", "pp") for t in x.targets)):
             raise ExtractError("generate_equations: setup statement in writer block %s: %s" % (name, ast.unparse(x)[:60]))
-    f = loops[0]
-    if not (isinstance(f.iter, ast.Name) and isinstance(f.target, ast.Name)) or f.orelse:
-        raise ExtractError("generate_equations: writer block %s iterates %s" % (name, ast.unparse(f.iter)))
-    if f.iter.id == all_tree:
+    d = N.direct_loop(loops[0])
+    if d is None:
+        raise ExtractError("generate_equations: writer block %s iterates %s" % (name, ast.unparse(loops[0].iter)))
+    v, lst, b = d
+    if lst == all_tree:
         src = ".allTree"
-    elif f.iter.id == extra_tree:
+    elif lst == extra_tree:
         src = ".extraTree"
     else:
-        raise ExtractError("generate_equations: writer block %s iterates %s" % (name, f.iter.id))
-    v = f.target.id
-    b = f.body
-    if len(b) == 1 and ast.unparse(b[0]) == "print(aifeyn_complexity(%s, param_list), file=%s)" % (v, fvar):
+        raise ExtractError("generate_equations: writer block %s iterates %s" % (name, lst))
+    b = N.inline_single_use(b, ast.Module(body=b, type_ignores=[]))
+    if len(b) == 1 and ast.unparse(b[0]) == "print(aifeyn_complexity(%s, %s), file=%s)" % (v, pl_var, fvar):
         payload = ".aifeyn"
     elif len(b) >= 2 and ast.unparse(b[0]) == "s = str(%s)" % v and ast.unparse(b[-1]) == "pp.pprint(s)" and \
             all(isinstance(x, ast.If) and all(isinstance(y, ast.Assign) and all(isinstance(t, ast.Name) and t.id in ("w", "pp") for t in y.targets)
@@ -369,15 +561,78 @@ def _with_block(w, all_tree, extra_tree):
             raise ExtractError("generate_equations: writer block %s does not print to its own file" % name)
         payload = ".treeStr"
     else:
-        raise ExtractError("generate_equations: body of writer block %s not recognised: %s" % (name, ast.unparse(f)[:100]))
+        raise ExtractError("generate_equations: body of writer block %s not recognised: %s" % (name, ast.unparse(loops[0])[:100]))
     return (name, src, payload)
+
+
+# ---------------------------------------------------------------------------------------
+# the two single-tree call sites in fit_single.py
+# ---------------------------------------------------------------------------------------
+
+FIT = "esr/fitting/fit_single.py"
+_MAXPARAM = "simplifier.get_max_param([generator.node_to_string(0, generator.check_tree(generator.labels_to_shape(%s, %s))[2], %s)])"
+
+
+def _param_rule(P, L, B):
+    """classify the expression passed as `param_list`:
+    'paramLikeLabels'   [l for l in labels if l.startswith('a') and l[1:].isdigit()]
+    'maxParamOfPrinted' ['a%i' % j for j in range(get_max_param([node_to_string(0, check_tree(labels_to_shape(labels, basis))[2], labels)]))]"""
+    c = N.alpha(P, "_v")
+    if c is None:
+        raise ExtractError("param_list is not a single comprehension: %s" % ast.unparse(P)[:120])
+    g = c.generators[0]
+    if isinstance(g.iter, ast.Name) and g.iter.id == L and isinstance(c.elt, ast.Name) and c.elt.id == "_v":
+        want = [N.dump(ast.parse(x, mode="eval").body) for x in ("_v.startswith('a')", "_v[1:].isdigit()")]
+        if [N.dump(x) for x in N.conjuncts(g.ifs)] == want:
+            return "paramLikeLabels"
+    M = _param_names(P, N.Strings({}))
+    if M is not None:
+        M = copy.deepcopy(M)
+        if isinstance(M, ast.Call):                       # `verbose` only switches printing
+            M.keywords = [kw for kw in M.keywords if not (kw.arg == "verbose" and N.is_atom(kw.value))]
+        if N.dump(M) == N.dump(ast.parse(_MAXPARAM % (L, B, L), mode="eval").body):
+            return "maxParamOfPrinted"
+    raise ExtractError("param_list rule not recognised: %s" % ast.unparse(P)[:200])
+
+
+def _call_site(fn, module):
+    fn = N.loops_to_comps(N.inline_helpers(fn, module))
+    params = [a.arg for a in fn.args.args]
+    if len(params) < 2:
+        raise ExtractError("%s: signature" % fn.name)
+    L, B = params[0], params[1]
+    fl = N.Flow(fn, "aifeyn_complexity")
+    if not fl.calls:
+        raise ExtractError("%s: no call of aifeyn_complexity" % fn.name)
+    rules = set()
+    for c in fl.calls:
+        if c["keywords"] or len(c["args"]) != 2 or c["args"][0] is None or c["args"][1] is None:
+            raise ExtractError("%s line %d: arguments of aifeyn_complexity cannot be traced back to the function's inputs" % (fn.name, c["lineno"]))
+        if N.dump(c["args"][0]) != N.dump(ast.Name(id=L, ctx=ast.Load())):
+            raise ExtractError("%s line %d: first argument of aifeyn_complexity is not the unmodified `%s`" % (fn.name, c["lineno"], L))
+        rules.add(_param_rule(c["args"][1], L, B))
+    if len(rules) != 1:
+        raise ExtractError("%s: calls of aifeyn_complexity with different parameter rules %r" % (fn.name, sorted(rules)))
+    return rules.pop()
+
+
+def call_sites(stage):
+    """{function: dict(rule=... | error=...)} for the two single-tree entry points"""
+    tree = extract._parse(stage, FIT)
+    out = {}
+    for name in ("single_function", "tree_to_aifeyn"):
+        try:
+            out[name] = dict(rule=_call_site(extract.find_def(tree, name), tree))
+        except ExtractError as e:
+            out[name] = dict(error=str(e))
+    return out
 
 
 @extract.extractor("Aifeyn")
 def aifeyn(stage):
     tree = extract._parse(stage, GEN)
-    a = _Aifeyn(extract.find_def(tree, "aifeyn_complexity"))
-    cleared, writes, cats, wspan = _writer(extract.find_def(tree, "generate_equations"))
+    a = _Aifeyn(extract.find_def(tree, "aifeyn_complexity"), tree)
+    cleared, writes, cats, wspan = _writer(extract.find_def(tree, "generate_equations"), tree)
     out = "import ESRVerif.Model.AifeynSyntax\n" + extract.header("Aifeyn", [a.span, wspan]) + "open ESR.Aifeyn\n\n"
     out += "/-- `%s = [tt for tt in tree if ...]` -/\ndef opFilter : LPred := %s\n\n" % (a.ops_var, a.op_filter)
     out += "/-- `%s = np.array([int(tt) for tt in tree if ...])` -/\ndef intFilter : LPred := %s\n\n" % (a.int_var, a.int_filter)
